@@ -144,7 +144,10 @@ func JudgeOpen(b []byte, cfg OpenCfg) OpenVerdict {
 		}
 	}
 	if zeroCapParam {
-		silent("zero-length capabilities parameter", Reaction{2, 0, nil, "zero-length capabilities parameter"}, Reaction{2, 7, nil, "zero-length capabilities parameter"})
+		// RFC 5492 4: the parameter "contains one or more triples"; an empty one makes the list
+		// malformed ("well-formed capabilities parameter list" is a condition of acceptance)
+		fault(2, 0, nil, "zero-length capabilities parameter")
+		v.Admissible = append(v.Admissible, Reaction{2, 7, nil, "zero-length capabilities parameter"})
 	}
 	v.Caps = caps
 	// AS matching
